@@ -58,7 +58,10 @@ class Proto:
         place through manifest_file=...; now and then the harness moves the newest manifest to d/mfalt first."""
         if self.cls is not IH5MFRecord or not cs:
             return {}
-        c = max(cs, key=lambda c_: (c_["idx"], c_["fn"][1]))
+        order = sorted(cs, key=lambda c_: (c_["idx"], c_["fn"][1]))
+        c = order[-1]
+        if len(order) > 1 and not c["hash"]:
+            c = order[-2]     # the latest manifest belongs to the newest committed container
         mp = protolib.manifest_path(self.d, c["fn"])
         alt = self.d / "mfalt" / mp.name
         if move and mp.is_file():
@@ -214,6 +217,48 @@ def chain_checks(p: Proto, disk) -> List[Dict[str, Any]]:
     return out
 
 
+def handle_vs_disk(p: Proto) -> List[str]:
+    """What the open record object reports about itself (files in patch order, user blocks, record uuid, manifest)
+    compared with the containers as read from their bytes."""
+    r = p.rec
+    if r is None:
+        return []
+    mis: List[str] = []
+    try:
+        files = list(r.ih5_files)
+        meta = list(r.ih5_meta)
+        if len(files) != len(meta):
+            return [f"{len(files)} files but {len(meta)} user blocks"]
+        prev_idx = -1
+        for f, m in zip(files, meta):
+            c = protolib.parse_container(Path(f))
+            if not c["parse"]:
+                mis.append(f"{Path(f).name}: user block on disk does not parse")
+                continue
+            mem = {"rec": str(m.record_uuid), "uuid": str(m.patch_uuid), "prev": str(m.prev_patch) if m.prev_patch else "",
+                   "idx": m.patch_index, "hash": str(m.hdf5_hashsum or "")}
+            for k_, v_ in mem.items():
+                if c[k_] != v_:
+                    mis.append(f"{Path(f).name}: {k_} in memory {v_!r}, on disk {c[k_]!r}")
+            if m.patch_index <= prev_idx:
+                mis.append("ih5_files / ih5_meta are not in patch order")
+            prev_idx = m.patch_index
+            if str(r.ih5_uuid) != mem["rec"]:
+                mis.append("ih5_uuid differs from the record uuid of a container")
+        if p.cls is IH5MFRecord and meta:
+            newest_committed = [c_ for c_ in (protolib.parse_container(Path(f_)) for f_ in files) if c_["parse"] and c_["hash"] and c_["mfu"]]
+            if newest_committed:
+                try:
+                    mu = str(r.manifest.manifest_uuid)
+                    if mu != newest_committed[-1]["mfu"]:
+                        mis.append(f"manifest in memory {mu} is not the one of the newest committed container {newest_committed[-1]['mfu']}")
+                except ValueError:
+                    mis.append("no manifest loaded although a committed container refers to one")
+    except Exception as ex:
+        mis.append(f"cannot be asked: {type(ex).__name__}: {str(ex)[:100]}")
+    return mis[:5]
+
+
 def make_event(p: Proto, a: Dict[str, Any], ok: bool, exc: Optional[str], extra=None) -> Dict[str, Any]:
     disk, mfd, nb = protolib.scan(p.d, p.names)
     # fresh tokens are read off the post state: newest container of the record acted upon
@@ -227,7 +272,8 @@ def make_event(p: Proto, a: Dict[str, Any], ok: bool, exc: Optional[str], extra=
     ev = {"op": a["op"], "a": act, "ok": ok, "exc": exc or "", "disk": disk, "mfd": mfd, "nb": nb,
           "h": p.handle(), "vw": p.view_digest(), "cls": p.clsname, "timeout": False}
     ev.update({"merged_vw": "", "meta_before": "", "meta_after": "", "listed": [], "all_records": [], "found": [],
-               "chain": chain_checks(p, disk) if a["op"] in ("commit", "open") and ok else []})
+               "chain": chain_checks(p, disk) if a["op"] in ("commit", "open") and ok else [],
+               "hmis": handle_vs_disk(p)})
     if extra:
         ev.update(extra)
     return ev
